@@ -14,10 +14,15 @@ CONFIGS = {
               ("MC_C02_q", "MC_C02_str.cfg", {"MaxSegs": 2}, ["eager", "lazy"], 1),
               # inheritance across segments of different byte order
               ("MC_C02_q", "MC_C02_be.cfg", {"MaxSegs": 2}, ["eager", "lazy"], 4),
+              # inheritance across segments of different raw data layout (interleaved / contiguous)
+              ("MC_C02_q", "MC_C02_q.cfg", {"MaxSegs": 2, "NVals": "{2}", "KVals": "{1, 2}", "Layouts": '{"contig", "il"}'},
+               ["eager", "lazy"], 4),
               # three segments (an emptied or re-started object list in the middle) over a small alphabet
               ("MC_C02_q", "MC_C02_q.cfg", {"MaxSegs": 3, "NVals": "{2}", "KVals": "{1}", "Forbidden": "{}"},
                ["eager", "lazy"], 4)],
     "thorough": [("MC_C02_q", "MC_C02_q.cfg", {"MaxSegs": 3}, ["eager", "lazy"], 4),
+                 ("MC_C02_q", "MC_C02_q.cfg", {"MaxSegs": 3, "NVals": "{2}", "KVals": "{1, 2}", "Layouts": '{"contig", "il"}'},
+                  ["eager", "lazy"], 4),
                  ("MC_C02_q", "MC_C02_str.cfg", {"MaxSegs": 2, "NVals": "{0, 1, 2}"}, ["eager", "lazy"], 1),
                  ("MC_C02_q", "MC_C02_be.cfg", {"MaxSegs": 3, "KVals": "{1}"}, ["eager", "lazy"], 4)],
 }
